@@ -25,7 +25,8 @@ OPS = ["+", "-", "*", "/", "%%", "==", "!=", ">", "<", ">=", "<=", "~", "!~", "i
 # atom pool A: (type class, expr)
 ATOMS = [
     ("int0", I(0)), ("int", I(1)), ("int", I(2)), ("int", I(7)), ("intmax", I(refsem.I64_MAX)),
-    ("float0", ("float", 0.0)), ("float", ("float", 1.5)),
+    ("negint", I(-3)), ("intmin", I(refsem.I64_MIN)),
+    ("float0", ("float", 0.0)), ("float", ("float", 1.5)), ("negfloat", ("float", -2.5)),
     ("str-empty", S("")), ("str", S("a")), ("str", S("ab")),
     ("bool", TRUE), ("bool", FALSE), ("null", NUL),
     ("list-empty", L()), ("list", L(I(1), I(2))), ("list", L(S("a"))),
@@ -374,6 +375,10 @@ def work(chunk):
     srv = core.worker_server()
     progs = []
     hist = {}
+    nonstrict = bool(chunk) and chunk[0][0] == "ns"
+    if nonstrict:
+        chunk = [d[1] for d in chunk]
+    kw = {"strict": False} if nonstrict else None
     for desc in chunk:
         try:
             st = expand(desc)
@@ -383,23 +388,27 @@ def work(chunk):
             continue
         # the reference runs first: programs outside its supported fragment (ranges beyond the
         # generator bound, regex patterns outside the safe set) are not sent to the implementation
-        ref = reference(st)
+        ref = reference(st, kw)
         if ref is None:
             hist["skipped:ref-unsupported"] = hist.get("skipped:ref-unsupported", 0) + 1
             continue
         progs.append((desc, st, src, ref))
-    reqs = [{"op": "eval", "src": src} for _, st, src, _ in progs]
+    reqs = [{"op": "eval", "src": src, "strict": not nonstrict} for _, st, src, _ in progs]
     resps = iter(srv.req_many(reqs))
     out = []
     nontrivial = 0
     for desc, st, src, ref in progs:
         rs = next(resps)
         oc, mm = compare(st, rs, ref=ref)
+        if nonstrict:
+            oc = "nonstrict:" + oc
         hist[oc] = hist.get(oc, 0) + 1
-        if oc.startswith(("ok=", "fail=")):
+        if oc.startswith(("ok=", "fail=", "nonstrict:ok=", "nonstrict:fail=")):
             nontrivial += 1
-        if mm is not None:
+        if mm is not None and not nonstrict:
             out.append((desc, describe(desc), src, oc, mm))
+        elif mm is not None:
+            out.append((("ns", desc), "nonstrict:" + describe(desc), src, oc.replace("nonstrict:", ""), mm))
     sample = progs[len(progs) // 2][2] if progs else None
     return {"evals": len(chunk), "nontrivial": nontrivial, "hist": hist, "mism": out[:300], "sample": sample.split("\n")[-1] if sample else None}
 
@@ -451,6 +460,20 @@ def run(ctx):
 
     for part in core.pmap_gen(work, descs(), chunk=1500):
         absorb(part)
+    # the same S1 / S2 programs in non-strict mode (missing fields and indexes yield NULL)
+    def ns_descs():
+        for op in OPS:
+            for a in range(NLEAVES):
+                for b in range(NLEAVES):
+                    yield ("ns", ("s1", op, a, b))
+        for t in range(nt):
+            for leaf in range(NLEAVES):
+                yield ("ns", ("path", (t,), leaf, False))
+        for t1 in range(nt):
+            for t2 in range(nt):
+                yield ("ns", ("pathT", (t1, t2)))
+    for part in core.pmap_gen(work, ns_descs(), chunk=1500):
+        absorb(part)
 
     # signatures: every mismatch is shrunk (sub-expressions replaced by the literal the reference
     # gives them, wrappers hoisted away) and the minimal witness is abstracted (literals -> type
@@ -465,7 +488,15 @@ def run(ctx):
             if oc.startswith("GENERATOR") or oc == "machinery":
                 ctx.machinery_errors.append("%s: %s -> %s" % (oc, src.split("\n")[-1], mm))
                 continue
-            stmts = expand(desc)
+            is_ns = desc[0] == "ns"
+            stmts = expand(desc[1] if is_ns else desc)
+            if is_ns:
+                sig = "%s :: %s" % (d, oc)
+                if sig not in emitted:
+                    emitted[sig] = 1
+                    ctx.violation(sig, "non-strict mode: reference %s, implementation %s on `%s`" % (_short(mm.get("expected")), _short(mm.get("observed")), src.split("\n")[-1]),
+                                  {"kind": "eval", "src": src, "ast": repr(stmts), "category": oc, "nonstrict": True, "detail": mm})
+                continue
             if budget > 0:
                 budget -= 1
                 wit = shrink(stmts, srv)
